@@ -73,3 +73,21 @@ Example C16_nonvacuous :
   (exists p, death_prob false 20 (1 # 1000) 1 UDay 73 = Ok p /\ p == (20 # 1000) * (73 * 4 # 1461)) /\
   exists p, death_prob true 20 (1 # 1000) 1 UYear (1 # 5) = Ok p /\ p == (1 # 1250).
 Proof. split; eexists; split; vm_compute; reflexivity. Qed.
+
+Open Scope R_scope.
+(* transmission on sexual networks (generated from SexualNetwork.net_beta): with a per-act probability the hazard per unit time does not depend on the
+   step, and the steps of one unit of time compound to 1 - (1-b)^acts *)
+Theorem C16_sexual_network_hazard_step_free : forall b acts dt, 0 <= b < 1 -> 0 < dt -> - ln (1 - sexual_net_beta_gen 1 b acts dt) / dt = acts * - ln (1 - b).
+Proof. exact sexual_hazard_step_free. Qed.
+Theorem C16_sexual_network_compounds_over_a_unit_of_time : forall b acts dt, 0 <= b < 1 -> 0 < dt -> Rpower (1 - sexual_net_beta_gen 1 b acts dt) (/ dt) = Rpower (1 - b) acts.
+Proof. exact sexual_compounds. Qed.
+(* a beta that is already converted to the step (ss.beta) is converted a second time: hazard proportional to the step (listed finding sexual-network-beta-double-dt) *)
+Theorem C16_sexual_network_time_scaled_beta_double_dt : forall b acts dt, 0 <= b < 1 -> 0 < dt ->
+  - ln (1 - sexual_net_beta_gen 1 (beta_per_step b dt) acts dt) / dt = dt * (acts * - ln (1 - b)).
+Proof. exact sexual_hazard_time_scaled. Qed.
+Theorem C16_sexual_network_time_scaled_beta_refuted : exists b acts dt1 dt2, 0 <= b < 1 /\ 0 < dt1 /\ 0 < dt2 /\
+  - ln (1 - sexual_net_beta_gen 1 (beta_per_step b dt1) acts dt1) / dt1 <> - ln (1 - sexual_net_beta_gen 1 (beta_per_step b dt2) acts dt2) / dt2.
+Proof. exact sexual_time_scaled_refuted. Qed.
+Print Assumptions C16_sexual_network_hazard_step_free. Print Assumptions C16_sexual_network_compounds_over_a_unit_of_time.
+Print Assumptions C16_sexual_network_time_scaled_beta_double_dt. Print Assumptions C16_sexual_network_time_scaled_beta_refuted.
+Close Scope R_scope.
